@@ -284,9 +284,9 @@ def check_proofs(prop: str, required: list[str], leanchecker: bool = False) -> P
     if rc != 0:
         st.fail("axiom audit did not compile: " + (out + err)[:400])
     text = out.replace("\n  ", " ").replace("\n ", " ")
-    for m in re.finditer(r"'([^']+)' depends on axioms: \[([^\]]*)\]", text):
+    for m in re.finditer(r"'(\S+)' depends on axioms: \[([^\]]*)\]", text):
         st.theorems[m.group(1).split(".")[-1]] = [a.strip() for a in m.group(2).split(",") if a.strip()]
-    for m in re.finditer(r"'([^']+)' does not depend on any axioms", text):
+    for m in re.finditer(r"'(\S+)' does not depend on any axioms", text):
         st.theorems[m.group(1).split(".")[-1]] = []
     for n in names:
         short = n.split(".")[-1]
